@@ -114,6 +114,7 @@ static inline void record_perf_data(struct uftrace_perf_writer *perf, int cpu, i
 
 struct uftrace_perf_reader {
 	FILE *fp;
+	int cpu; /* the N of perf-cpuN.dat */
 	bool valid;
 	bool done;
 	int type;
